@@ -6,7 +6,8 @@ parsed from the request header; is_authorized returns Ok only if the seeding
 policy is not `block` and the identity document is visible to the requester;
 Doc::is_visible_to is true only for public repos, allow-listed peers or delegates. 
 `Config::is_seeding` is accepted in place of the block test only while it is itself
-the policy-row lookup."""
+the policy-row lookup.  The canonical identity head that `identity_doc()` reads is
+recomputed by the fetch worker after every successful fetch."""
 import re
 
 from .. import cfg, rules, flow
